@@ -36,6 +36,7 @@ type state struct {
 	P  int // index into partAlpha
 	MS int // index into surgeAlpha
 	MU int // index into unavailAlpha
+	SB int // scale events the user may still issue in this history (thorough tier; 0..3)
 	RS [3]rsState
 }
 
@@ -157,7 +158,7 @@ func (s *state) converged() bool {
 type key uint64
 
 func (s *state) key() key {
-	k := uint64(s.R) | uint64(s.P)<<3 | uint64(s.MS)<<7 | uint64(s.MU)<<9
+	k := uint64(s.R) | uint64(s.P)<<3 | uint64(s.MS)<<7 | uint64(s.MU)<<9 | uint64(s.SB&3)<<59
 	sh := uint(11)
 	for i := range s.RS {
 		r := &s.RS[i]
@@ -181,6 +182,7 @@ func fromKey(k key) state {
 	s.P = int(u >> 3 & 15)
 	s.MS = int(u >> 7 & 3)
 	s.MU = int(u >> 9 & 3)
+	s.SB = int(u >> 59 & 3)
 	sh := uint(11)
 	for i := range s.RS {
 		v := u >> sh & 0xffff
@@ -206,13 +208,14 @@ type stateJSON struct {
 	Partition      string  `json:"partition"`
 	MaxSurge       string  `json:"maxSurge"`
 	MaxUnavailable string  `json:"maxUnavailable"`
+	ScaleBudget    int     `json:"scaleEventsLeft,omitempty"`
 	Old1           *rsJSON `json:"old1"`
 	Old2           *rsJSON `json:"old2,omitempty"`
 	New            *rsJSON `json:"new,omitempty"`
 }
 
 func (s *state) toJSON() stateJSON {
-	j := stateJSON{Replicas: s.R, Partition: s.partition(), MaxSurge: s.maxSurge(), MaxUnavailable: s.maxUnavailable()}
+	j := stateJSON{Replicas: s.R, Partition: s.partition(), MaxSurge: s.maxSurge(), MaxUnavailable: s.maxUnavailable(), ScaleBudget: s.SB}
 	ptr := [3]**rsJSON{&j.Old1, &j.Old2, &j.New}
 	for i := range s.RS {
 		if s.RS[i].Present {
@@ -236,6 +239,7 @@ func (j *stateJSON) toState() (state, error) {
 	var s state
 	var err error
 	s.R = j.Replicas
+	s.SB = j.ScaleBudget
 	if s.P, err = indexOf(partAlpha, j.Partition); err != nil {
 		return s, err
 	}
@@ -261,6 +265,9 @@ func (j *stateJSON) toState() (state, error) {
 func (s *state) String() string {
 	var b strings.Builder
 	fmt.Fprintf(&b, "R=%d part=%s surge=%s unavail=%s", s.R, s.partition(), s.maxSurge(), s.maxUnavailable())
+	if s.SB > 0 {
+		fmt.Fprintf(&b, " scaleEventsLeft=%d", s.SB)
+	}
 	for i := range s.RS {
 		r := s.RS[i]
 		if !r.Present {
@@ -386,15 +393,17 @@ func modelSuccessors(s *state, scaleR int, out []succ) []succ {
 		t.P++
 		out = append(out, succ{mkLabel(lRaise, 0), t})
 	}
-	if scaleR > 0 && s.R <= scaleR {
+	if scaleR > 0 && s.R <= scaleR && s.SB > 0 {
 		if s.R < scaleR {
 			t := *s
 			t.R++
+			t.SB--
 			out = append(out, succ{mkLabel(lScaleUp, 0), t})
 		}
 		if s.R > 1 {
 			t := *s
 			t.R--
+			t.SB--
 			out = append(out, succ{mkLabel(lScaleDown, 0), t})
 		}
 	}
@@ -402,6 +411,21 @@ func modelSuccessors(s *state, scaleR int, out []succ) []succ {
 }
 
 func applyModel(s *state, l label, scaleR int) (state, error) {
+	if k := l.kind(); k == lScaleUp || k == lScaleDown { // replay: a recorded scale step is always enabled
+		t := *s
+		if k == lScaleUp {
+			t.R++
+		} else {
+			t.R--
+		}
+		if t.SB > 0 {
+			t.SB--
+		}
+		if t.R < 1 || t.R > 7 {
+			return *s, fmt.Errorf("step %s leaves the size range in state %s", l, s)
+		}
+		return t, nil
+	}
 	for _, sc := range modelSuccessors(s, scaleR, nil) {
 		if sc.l == l {
 			return sc.s, nil
